@@ -92,6 +92,35 @@ theorem error_branch_start_partial (atHead invalid : Bool) (txid : Nat) (r : Abo
   refine ⟨rfl, ?_⟩
   cases invalid <;> simp at h <;> subst h <;> simp
 
+/-- **head_attempt_is_in_order.** An attempt that starts at the commit head (and therefore
+    validates the nonce, finding F7) yields what in-order execution of that transaction yields, when
+    its execution runs on final state. -/
+theorem head_attempt_is_in_order (nonceBad : Option Nat) (exec : TxRes) :
+    attempt true nonceBad exec = inOrderTx nonceBad exec := by
+  cases nonceBad <;> rfl
+
+/-- **fatal_only_if_in_order_fatal.** With the repair, a fatal abort is raised only when in-order
+    execution of that transaction is fatal: a transaction that in-order validation rejects for
+    its nonce can never abort the block with an execution error, whatever its execution would
+    have met (database fault on the recipient, fatal precompile). -/
+theorem fatal_only_if_in_order_fatal (atHead : Bool) (txid : Nat) (nonceBad : Option Nat) (exec : TxRes)
+    (h : abortFor atHead txid (attempt atHead nonceBad exec) = some (.fatalEvmError txid)) :
+    atHead = true ∧ ∃ e, inOrderTx nonceBad exec = .fatal e := by
+  cases atHead with
+  | false => cases nonceBad <;> cases exec <;> simp [attempt, abortFor, errorBranch] at h
+  | true =>
+    refine ⟨rfl, ?_⟩
+    cases nonceBad with
+    | some r => simp [attempt, abortFor, errorBranch] at h
+    | none => cases exec <;> simp [attempt, abortFor, errorBranch, inOrderTx] at h ⊢
+
+/-- **f7_unchecked_head_attempt_violates.** Without the nonce validation at the head (the pinned
+    tree), a transaction that in-order execution merely skips aborts the block with the error its
+    execution met. -/
+theorem f7_unchecked_head_attempt_violates :
+    abortFor true 0 (attempt false (some 1) (.fatal 9)) = some (.fatalEvmError 0) ∧
+      inOrderTx (some 1) (.fatal 9) = .invalid 1 := by decide
+
 example : replay [.ok 1, .invalid 7, .fatal 9, .ok 2] = ([.executed 1, .skipped 7], some (2, 9)) := by
   decide
 
